@@ -11,7 +11,10 @@ use std::pin::Pin;
 use std::task::{Context, Poll};
 
 struct Inner<T> {
-    val: Option<T>,
+    /// `ManuallyDrop`: an undelivered value is always dropped by the receiver's
+    /// destructor (a send after that fails and hands the value back), so the cell's
+    /// own drop glue never has a `T` to drop.
+    val: std::mem::ManuallyDrop<Option<T>>,
     tx_alive: bool,
     rx_alive: bool,
     rx_closed: bool,
@@ -43,7 +46,7 @@ impl<T> std::fmt::Debug for Receiver<T> {
 }
 
 pub fn channel<T>() -> (Sender<T>, Receiver<T>) {
-    let ch = Shared::new(Inner { val: None, tx_alive: true, rx_alive: true, rx_closed: false, done: false });
+    let ch = Shared::new(Inner { val: std::mem::ManuallyDrop::new(None), tx_alive: true, rx_alive: true, rx_closed: false, done: false });
     (Sender { ch: ch.clone() }, Receiver { ch })
 }
 
@@ -53,7 +56,7 @@ impl<T> Sender<T> {
             if !c.rx_alive || c.rx_closed {
                 Err(t)
             } else {
-                c.val = Some(t);
+                *c.val = Some(t);
                 Ok(())
             }
         })
